@@ -6,6 +6,7 @@ import (
 	"fmt"
 	"strings"
 
+	"verifharness/pkg/gqlty"
 	"verifharness/pkg/vh"
 )
 
@@ -190,9 +191,10 @@ func genVarsText(r *vh.Rng) string {
 // ---- grammar stream: syntactically valid documents, including what thunder does not support ----
 
 type gctx struct {
-	r     *vh.Rng
-	frags []string
-	depth int
+	nodirs bool
+	r      *vh.Rng
+	frags  []string
+	depth  int
 }
 
 var gFieldNames = []string{"a", "s", "obj", "objs", "x", "y", "child", "u", "arg", "__typename", "bogus"}
@@ -255,7 +257,7 @@ func (g *gctx) args() string {
 
 func (g *gctx) directives() string {
 	r := g.r
-	if r.Chance(85) {
+	if g.nodirs || r.Chance(88) {
 		return ""
 	}
 	return " " + r.Pick([]string{"@skip(if: true)", "@skip(if: false)", "@include(if: $b)", "@include(if: true)", "@skip", "@other(x: 1, x: 2)", "@skip(if: 3)"})
@@ -304,7 +306,7 @@ var otherDefs = []string{
 }
 
 func genGrammar(r *vh.Rng) Case {
-	g := &gctx{r: r}
+	g := &gctx{r: r, nodirs: r.Chance(50)}
 	nf := 0
 	if r.Chance(60) {
 		nf = 1 + r.Intn(3)
@@ -391,6 +393,26 @@ func genGrammar(r *vh.Rng) Case {
 		c.Vars = string(b)
 	}
 	return c
+}
+
+// ---- typed stream: queries that follow the test schema and therefore reach execution ----
+
+var argSamples15 = map[string][]string{
+	"Query.arg":   {`(x: 1)`, `(x: 2, s: "t", l: [1, 2], e: RED)`, `(x: 3, in: {a: 1, l: []})`},
+	"Query.boom":  {`(mode: "ok")`, `(mode: "ok")`, `(mode: "panic")`, `(mode: "err")`, `(mode: "safe")`},
+	"Query.eboom": {`(mode: "ok")`, `(mode: "nilmap")`},
+	"Obj.boom":    {`(mode: "ok")`, `(mode: "ok")`, `(mode: "index")`},
+	"Obj.bboom":   {`(mode: "ok")`, `(mode: "ok")`, `(mode: "nilptr")`},
+}
+
+func genTyped(r *vh.Rng, desc *gqlty.SchemaDesc) Case {
+	g := &gqlty.QGen{R: r, D: desc, ArgSamples: argSamples15, AliasPool: []string{"k", "m", "x"},
+		PAlias: 30, PFrag: 12, PInline: 12, PTypename: 8, PDirective: 6}
+	if r.Chance(15) {
+		g.WantIll = r.Pick(gqlty.IllKinds)
+	}
+	q := g.Document("query", "Query", 2+r.Intn(3))
+	return Case{Stream: "typed", Query: q, Exec: true, Origin: "typed"}
 }
 
 // ---- fragment-bomb families ----
